@@ -139,7 +139,10 @@ def _deep_work(H, chunk):
             obj = sv.compile(css, namespaces={'svg': 'urn:svg'})
         except Exception:
             continue
+        hung = False
         for name, soup, leaf in H['deep']:
+            if hung:
+                break
             top = [t for t in soup.contents if isinstance(t, bs4.Tag)][0]
             calls = [('select', lambda: obj.select(soup, 3)), ('select_one', lambda: obj.select_one(soup)), ('match(leaf)', lambda: obj.match(leaf)),
                      ('closest(leaf)', lambda: obj.closest(leaf)), ('filter(top)', lambda: obj.filter(top)), ('match(top)', lambda: obj.match(top)),
@@ -154,6 +157,8 @@ def _deep_work(H, chunk):
                     out.append((css, name, cname, None))
                 except _Timeout:
                     out.append((css, name, cname, 'no termination within 60 s'))
+                    hung = True
+                    break           # one report per selector is enough: do not wait a minute for each of its other calls
                 except BaseException as ex:  # noqa  (RecursionError is an Exception; MemoryError etc. are reported too)
                     out.append((css, name, cname, type(ex).__name__))
     return out
@@ -204,6 +209,7 @@ def _degenerate_part(chk):
     lone = bs4.BeautifulSoup('', 'html.parser').new_tag('p')
     docs.append(('lone new_tag', lone))
     n = 0
+    slow = set()
     for css in _selectors(sv):
         try:
             obj = sv.compile(css, namespaces={'svg': 'urn:svg'})
@@ -214,8 +220,14 @@ def _degenerate_part(chk):
                               ('match', lambda: obj.match(d)), ('closest', lambda: obj.closest(d)), ('filter', lambda: obj.filter(d)),
                               ('filter(list)', lambda: obj.filter(list(d.contents)))):
                 n += 1
+                if css in slow:
+                    continue
                 try:
                     common.guard(fn, 20)
+                except common.CallTimeout:
+                    slow.add(css)
+                    chk.violation('degenerate|%s|timeout' % css, '%s(%r) on the element-less document %s did not return within 20 s' % (cname, css, name),
+                                  {'cfg': 'degenerate', 'selector': css, 'doc': name, 'call': cname, 'group': 'degenerate no termination'})
                 except BaseException as ex:  # noqa
                     chk.violation('degenerate|%s|%s|%s' % (css, name, cname), '%s(%r) on the element-less document %s raised %s' % (cname, css, name, type(ex).__name__),
                                   {'cfg': 'degenerate', 'selector': css, 'doc': name, 'call': cname, 'group': 'degenerate %s %s' % (type(ex).__name__, cname)})
